@@ -1,7 +1,7 @@
 """C06 — FITS serialisation round-trips every table exactly, in the documented layout.
 Proof: PsV/Props/C06.lean (C06_roundtrip, strides_reconstructed, legacy_order_key, missing_extents_defaults,
        be_bits_roundtrip, decode_encode, aux_values_gain_blanks_only — aux values with apostrophes included;
-       encoder_meets_layout, layout_file_is_read, reversed_axes_are_row_major, coefficient_bits_written / _read,
+       encoder_meets_layout, layout_file_is_read, independent_reader_arrays, reversed_axes_are_row_major, coefficient_bits_written / _read,
        nan_bits_preserved, period_text_roundtrip, conversions_not_used, accepted_storable, write_key_entries_accepted,
        C06_accepted_roundtrip, aux_extname_breaks_roundtrip, order_2p31_not_read).
 Tie (exact): (a) bytes of real write_fits / write_fits_mem → Lean decodeFits = writeCore t, and encodeFits (writeCore t) is
